@@ -70,3 +70,200 @@ Example C04_example_spec_rows :
              [(true, i 3); (false, i 2); (false, i 1)]] = Some [false; false; true].
 Proof. vm_compute. repeat split. Qed.
 Print Assumptions C04_example_spec_rows.
+
+(* ---- order independence, duplicates, marks (Core/DisjLaws2.v) ------------------------------- *)
+From Verif Require Import Core.DisjLaws2.
+From Coq Require Import Permutation Bool.
+
+(* the order of the operands of & (the list of disjunctions) never changes the outcome: known
+   finding F2 (cue's default depends on the operand order) is a deviation from this semantics,
+   not an ambiguity of it *)
+Theorem C04_operand_order_independent : forall labs atoms fuel plain ds ds',
+  Permutation ds ds' ->
+  (forall k, accepts (pair_of labs atoms fuel plain ds) k = accepts (pair_of labs atoms fuel plain ds') k) /\
+  resolve (pair_of labs atoms fuel plain ds) = resolve (pair_of labs atoms fuel plain ds').
+Proof. exact operand_order_independent. Qed.
+Print Assumptions C04_operand_order_independent.
+
+(* ... nor does the order or the repetition of the plain operands: the value/default pair is the same *)
+Theorem C04_plain_operands_as_set : forall labs atoms fuel plain plain' ds,
+  (forall e, In e plain <-> In e plain') ->
+  pair_of labs atoms fuel plain ds = pair_of labs atoms fuel plain' ds.
+Proof. exact plain_operands_as_set. Qed.
+Print Assumptions C04_plain_operands_as_set.
+
+(* only the SET of disjuncts of every disjunction matters (commutativity and idempotence of |) *)
+Theorem C04_disjuncts_as_sets : forall labs atoms fuel plain ds ds',
+  Forall2 (fun d d' : disj => forall c, In c d <-> In c d') ds ds' ->
+  (forall k, accepts (pair_of labs atoms fuel plain ds) k = accepts (pair_of labs atoms fuel plain ds') k) /\
+  resolve (pair_of labs atoms fuel plain ds) = resolve (pair_of labs atoms fuel plain ds').
+Proof. exact disjuncts_as_sets. Qed.
+Print Assumptions C04_disjuncts_as_sets.
+
+(* the order of the disjuncts of a disjunction, at any operand position *)
+Theorem C04_disjunct_order_independent : forall labs atoms fuel plain l1 d d' l2,
+  Permutation d d' ->
+  (forall k, accepts (pair_of labs atoms fuel plain (l1 ++ d :: l2)) k =
+             accepts (pair_of labs atoms fuel plain (l1 ++ d' :: l2)) k) /\
+  resolve (pair_of labs atoms fuel plain (l1 ++ d :: l2)) = resolve (pair_of labs atoms fuel plain (l1 ++ d' :: l2)).
+Proof. exact disjunct_order_independent. Qed.
+Print Assumptions C04_disjunct_order_independent.
+
+(* a duplicate disjunct (same mark, same expression) never changes the outcome *)
+Theorem C04_duplicate_disjunct : forall labs atoms fuel plain l1 d c l2,
+  In c d ->
+  (forall k, accepts (pair_of labs atoms fuel plain (l1 ++ (d ++ [c]) :: l2)) k =
+             accepts (pair_of labs atoms fuel plain (l1 ++ d :: l2)) k) /\
+  resolve (pair_of labs atoms fuel plain (l1 ++ (d ++ [c]) :: l2)) = resolve (pair_of labs atoms fuel plain (l1 ++ d :: l2)).
+Proof. exact duplicate_disjunct. Qed.
+Print Assumptions C04_duplicate_disjunct.
+
+(* ... nor does a copy carrying at most the mark of the original (an unmarked copy of a marked disjunct) *)
+Theorem C04_weaker_copy_irrelevant : forall labs atoms fuel plain d r m m' e,
+  In (m, e) d -> implb m' m = true ->
+  (forall k, accepts (pair_of labs atoms fuel plain ((d ++ [(m', e)]) :: r)) k =
+             accepts (pair_of labs atoms fuel plain (d :: r)) k) /\
+  resolve (pair_of labs atoms fuel plain ((d ++ [(m', e)]) :: r)) = resolve (pair_of labs atoms fuel plain (d :: r)).
+Proof. exact weaker_copy_irrelevant. Qed.
+Print Assumptions C04_weaker_copy_irrelevant.
+
+(* ... but a MARKED copy of an unmarked disjunct does: 1 | 2 is ambiguous, 1 | 2 | *1 is 1 *)
+Theorem C04_marked_copy_refuted : exists labs atoms fuel plain d r e,
+  In (false, e) d /\
+  resolve (pair_of labs atoms fuel plain ((d ++ [(true, e)]) :: r)) <> resolve (pair_of labs atoms fuel plain (d :: r)).
+Proof. exact marked_copy_refuted. Qed.
+Print Assumptions C04_marked_copy_refuted.
+
+(* no marks: no defaults, and a value is chosen iff it is the only one *)
+Theorem C04_no_marks_no_defaults : forall labs atoms fuel plain ds,
+  forallb (fun d => negb (has_marks d)) ds = true ->
+  defaults (pair_of labs atoms fuel plain ds) = [] /\
+  forall v, resolve (pair_of labs atoms fuel plain ds) = Chosen v <-> values (pair_of labs atoms fuel plain ds) = [v].
+Proof. exact no_marks_no_defaults. Qed.
+Print Assumptions C04_no_marks_no_defaults.
+
+(* no disjunctions: the value of the plain operands, or no value when that is an error *)
+Theorem C04_no_disjunctions : forall labs atoms fuel plain,
+  let v := evalNode labs atoms fuel [mkConj false plain] in
+  resolve (pair_of labs atoms fuel plain []) = (if res_err v then NoValue else Chosen v) /\
+  forall k, accepts (pair_of labs atoms fuel plain []) k = res_accepts k v.
+Proof. exact no_disjunctions. Qed.
+Print Assumptions C04_no_disjunctions.
+
+(* rule M: a disjunction all of whose disjuncts are marked behaves as the unmarked one, for acceptance
+   and for resolution, at any operand position ... *)
+Theorem C04_marks_on_every_disjunct : forall labs atoms fuel plain l1 d l2,
+  forallb fst d = true ->
+  (forall k, accepts (pair_of labs atoms fuel plain (l1 ++ d :: l2)) k =
+             accepts (pair_of labs atoms fuel plain (l1 ++ unmark d :: l2)) k) /\
+  resolve (pair_of labs atoms fuel plain (l1 ++ d :: l2)) = resolve (pair_of labs atoms fuel plain (l1 ++ unmark d :: l2)).
+Proof. exact marks_on_every_disjunct_at. Qed.
+Print Assumptions C04_marks_on_every_disjunct.
+
+(* ... and for any number of such disjunctions at once *)
+Theorem C04_all_marked_as_unmarked : forall labs atoms fuel plain ds,
+  Forall (fun d => forallb fst d = true) ds ->
+  (forall k, accepts (pair_of labs atoms fuel plain ds) k = accepts (pair_of labs atoms fuel plain (map unmark ds)) k) /\
+  resolve (pair_of labs atoms fuel plain ds) = resolve (pair_of labs atoms fuel plain (map unmark ds)).
+Proof. intros labs atoms fuel plain ds. exact (all_marked_as_unmarked labs atoms fuel plain ds []). Qed.
+Print Assumptions C04_all_marked_as_unmarked.
+
+(* non-vacuity of the hypotheses above, with non-trivial outcomes *)
+Definition D1 : disj := [(true, i 1); (false, i 2); (false, i 3)].
+Definition D2 : disj := [(true, i 3); (false, i 2); (false, i 1)].
+Definition D3 : disj := [(false, i 2); (false, i 3)].
+Example C04_example_order_and_duplicates :
+  (* operands permuted (the F2 witness) *)
+  Permutation [D1; D2; D3] [D3; D1; D2] /\
+  chosen [] [D1; D2; D3] = Some [false; false; true] /\ chosen [] [D3; D1; D2] = Some [false; false; true] /\
+  (* disjuncts permuted *)
+  Permutation D1 [(false, i 3); (true, i 1); (false, i 2)] /\
+  chosen [] [D3; D1] = Some [] /\ chosen [] [D3; [(false, i 3); (true, i 1); (false, i 2)]] = Some [] /\
+  chosen [i 1] [D3; D1] = None /\ chosen [i 1] [D1] = Some [true; false; false] /\
+  (* an exact duplicate, an unmarked copy of the marked disjunct *)
+  In (true, i 1) D1 /\ implb false true = true /\
+  chosen [] [D1] = Some [true; false; false] /\
+  chosen [] [D1 ++ [(true, i 1)]] = Some [true; false; false] /\
+  chosen [] [D1 ++ [(false, i 1)]] = Some [true; false; false] /\
+  (* a marked copy of an unmarked disjunct changes the outcome *)
+  chosen [] [D3] = Some [] /\ chosen [] [D3 ++ [(true, i 2)]] = Some [false; true; false].
+Proof.
+  split; [apply Permutation_sym; apply (Permutation_cons_app [D1; D2] [] D3); apply Permutation_refl|].
+  split; [vm_compute; reflexivity|]. split; [vm_compute; reflexivity|].
+  split; [unfold D1; apply Permutation_sym, (Permutation_cons_app [(true, i 1); (false, i 2)] [] (false, i 3)), Permutation_refl|].
+  vm_compute. repeat split; auto.
+Qed.
+Print Assumptions C04_example_order_and_duplicates.
+
+Example C04_example_marks :
+  (* no marks *)
+  forallb (fun d => negb (has_marks d)) [D3; [(false, i 3); (false, i 1)]] = true /\
+  chosen [] [D3; [(false, i 3); (false, i 1)]] = Some [false; false; true] /\
+  chosen [] [D3] = Some [] /\
+  (* no disjunctions *)
+  chosen [i 2] [] = Some [false; true; false] /\
+  resolve (pair_of L A 5 [i 1; i 2] []) = NoValue /\
+  (* every disjunct marked *)
+  forallb fst [(true, i 1); (true, i 2)] = true /\
+  unmark [(true, i 1); (true, i 2)] = [(false, i 1); (false, i 2)] /\
+  chosen [] [[(true, i 1); (true, i 2)]] = Some [] /\ chosen [] [[(false, i 1); (false, i 2)]] = Some [] /\
+  chosen [i 1] [[(true, i 1); (true, i 2)]] = Some [true; false; false] /\
+  chosen [i 1] [[(false, i 1); (false, i 2)]] = Some [true; false; false] /\
+  chosen [] [D1; [(true, i 1); (true, i 2)]] = Some [true; false; false] /\
+  chosen [] [D1; [(false, i 1); (false, i 2)]] = Some [true; false; false].
+Proof. vm_compute. repeat split. Qed.
+Print Assumptions C04_example_marks.
+
+(* a single surviving value is chosen whatever the marks (general form of C04_duplicate_resolves) *)
+Theorem C04_single_value_chosen : forall p v, values p = [v] -> resolve p = Chosen v.
+Proof. exact single_value_chosen. Qed.
+Print Assumptions C04_single_value_chosen.
+
+(* failed disjuncts, general form: a disjunct - marked or not - that fails with every choice of the
+   other disjunctions changes neither values, nor defaults, nor resolution, nor acceptance *)
+Theorem C04_eliminated_disjunct_irrelevant : forall labs atoms fuel plain d c r,
+  (forall t, is_tuple t r -> survives labs atoms fuel plain (c :: t) = false) ->
+  pair_of labs atoms fuel plain ((d ++ [c]) :: r) = pair_of labs atoms fuel plain (d :: r).
+Proof. exact eliminated_disjunct_irrelevant. Qed.
+Print Assumptions C04_eliminated_disjunct_irrelevant.
+
+(* marks never change the value of the value/default pair: same accepted atoms, same set of values *)
+Theorem C04_marks_never_change_the_value : forall labs atoms fuel plain ds ds',
+  Forall2 (fun d d' : disj => map snd d = map snd d') ds ds' ->
+  (forall k, accepts (pair_of labs atoms fuel plain ds) k = accepts (pair_of labs atoms fuel plain ds') k) /\
+  Permutation (values (pair_of labs atoms fuel plain ds)) (values (pair_of labs atoms fuel plain ds')).
+Proof. exact marks_never_change_the_value. Qed.
+Print Assumptions C04_marks_never_change_the_value.
+
+(* a plain operand is a one-disjunct disjunction: same value/default pair when unmarked, same outcome when marked *)
+Theorem C04_singleton_disjunction_is_operand : forall labs atoms fuel plain e r,
+  pair_of labs atoms fuel plain ([(false, e)] :: r) = pair_of labs atoms fuel (plain ++ [e]) r.
+Proof. exact singleton_disjunction_is_operand. Qed.
+Print Assumptions C04_singleton_disjunction_is_operand.
+
+Theorem C04_marked_singleton_is_operand : forall labs atoms fuel plain e r,
+  (forall k, accepts (pair_of labs atoms fuel plain ([(true, e)] :: r)) k = accepts (pair_of labs atoms fuel (plain ++ [e]) r) k) /\
+  resolve (pair_of labs atoms fuel plain ([(true, e)] :: r)) = resolve (pair_of labs atoms fuel (plain ++ [e]) r).
+Proof. exact marked_singleton_is_operand. Qed.
+Print Assumptions C04_marked_singleton_is_operand.
+
+Example C04_example_more :
+  (* one surviving value, reached through two choices with different marks *)
+  (exists v, values (pair_of L A 5 [] [D1; [(false, i 1)]]) = [v] /\ length (pair_of L A 5 [] [D1; [(true, i 1); (false, i 1)]]) = 2) /\
+  (* an eliminated marked disjunct that is not bottom *)
+  (forall t, is_tuple t [] -> survives L A 5 [i 2] ((true, i 1) :: t) = false) /\
+  chosen [i 2] [[(false, i 2); (false, i 3)] ++ [(true, i 1)]] = Some [false; true; false] /\
+  (* same expressions, different marks: same values, different resolution *)
+  Forall2 (fun d d' : disj => map snd d = map snd d') [D1] [unmark D1] /\
+  chosen [] [D1] = Some [true; false; false] /\ chosen [] [unmark D1] = Some [] /\
+  (* an operand written as a one-disjunct disjunction *)
+  chosen [] [[(false, i 1)]; D1] = Some [true; false; false] /\ chosen [i 1] [D1] = Some [true; false; false] /\
+  chosen [] [[(true, i 3)]; D1] = Some [false; false; true] /\ chosen [i 3] [D1] = Some [false; false; true].
+Proof.
+  split; [eexists; vm_compute; split; reflexivity|].
+  split; [intros t H; inversion H; vm_compute; reflexivity|].
+  split; [vm_compute; reflexivity|].
+  split; [repeat constructor|].
+  vm_compute. repeat split.
+Qed.
+Print Assumptions C04_example_more.
